@@ -2,7 +2,7 @@
    Property theorems only; the model is Bac.Net (no proofs), the proofs live in Bac.NetFacts.
    Local theorems hold for EVERY node state, adapter, and arriving frame of the model.  `Fwd` marks the copies made
    by the forwarding section of process_npdu (netservice.py:607-676), `Tx` every other frame a node emits. *)
-From Bac Require Import Base Net NetFacts NetTerm NetTerm2 NetReply NetOnce NetRoute NetArrive NetLocal NetBcast NetTree NetFlood NetRound.
+From Bac Require Import Base Net NetFacts NetTerm NetTerm2 NetReply NetOnce NetRoute NetArrive NetLocal NetBcast NetTree NetFlood NetRound NetCert.
 Open Scope N_scope.
 
 (* each router hop lowers the hop count by exactly one, and keeps payload and message type *)
@@ -405,6 +405,18 @@ Theorem C06_reply_routable : forall w d lv up par srcn ws s smac a_s tgt wt dm a
 Proof. exact tree_reply_routable. Qed.
 Print Assumptions C06_reply_routable.
 
+(* the hypotheses of the tree theorems are decidable: boolean checkers with soundness.  The check evaluates them
+   inside Coq on the model worlds of the random trees it simulates (case kind `tree-cert`: levels, up-ports and
+   parent ports computed by the harness by breadth-first search, caches installed as in the warm scenarios), so
+   the tree theorems apply to those concrete internetworks, whose complete traces are in turn compared with the
+   implementation. *)
+Theorem C06_certificate_checkers_sound : forall lns ns, internet_okb lns ns = true ->
+  internet_ok lns ns /\
+  (forall d lv up par, tree_tob lns ns d lv up par = true -> tree_to lns ns d lv up par) /\
+  (forall s lv up par, tree_fromb lns ns s lv up par = true -> tree_from lns ns s lv up par).
+Proof. exact checkers_sound. Qed.
+Print Assumptions C06_certificate_checkers_sound.
+
 (* C06_reply_routable is FALSE of the code when the originator is an application on a router: router with ports
    (net 1, net 2), local adapter = net 2, broadcasts globally; the station on net 1 is shown the router's net-1
    address in local form; its reply to that address arrives on the non-local adapter and is handed to nobody. *)
@@ -756,6 +768,13 @@ Proof.
   do 7 (destruct who as [|who]; [inversion H; subst; clear H; unfold cache_get, key_eqb; cbn; rewrite ?andb_false_r; reflexivity|]).
   destruct who; discriminate.
 Qed.
+
+(* the checkers accept the example tree *)
+Example C06_tree4_checkers :
+  internet_okb (lans tree4) (nodes tree4) = true /\
+  tree_tob (lans tree4) (nodes tree4) 4 lv4 up4 par4 = true /\
+  tree_fromb (lans tree4) (nodes tree4) 1 lv1 up1 par1 = true.
+Proof. vm_compute. repeat split. Qed.
 
 Example C06_tree_unicast_example :
   let w := run 100 (submit tree4 2 (ARS 4 [2]) [16; 99; 1]) in
